@@ -454,14 +454,27 @@ def run_fn(case, spec, x, u, d, rng):
     params = spec.get("params") or []
     rec = {"sym": sym, "compact": compact, "more_out": more_out,
            "params": [],
-           "ok": False, "err": "", "free": 0, "name_in": [], "size_in": [], "name_out": [], "size_out": [], "calls": []}
+           "ok": False, "err": "", "free": 0, "name_in": [], "size_in": [], "name_out": [], "size_out": [], "calls": [],
+           "check_names": True, "pre": spec.get("pre", "none")}
     try:
         eng = lib(cs_engine, sym)
         syms, decl = make_syms(eng, params, first_bare=bool(spec.get("first_bare")))
         rec["params"] = [{"name": name, "kind": p["kind"], "el": p["el"]} for name, _, p in decl]
         b = lib(Built, case, syms)
         kw = par_kwargs(case, syms)
-        lib(b.net.step, engine=eng, **opt_kwargs(case), **kw)
+        ic = None
+        if rec["pre"] != "none":
+            # the caller supplies the initial STATES as expressions g(s) of symbols s it created itself; the function's
+            # state arguments are then those symbols, and the step is the step from g(values)
+            g = {"fmaxm20": lambda s_: cs.fmax(-20, s_), "affine": lambda s_: 2 * s_ - 3}[rec["pre"]]
+            ic = {}
+            for l_, ob in b.links.items():
+                n_ = int(case["net"]["links"][l_]["N"])
+                ic[ob] = {"rho": g(eng.sym_type.sym(f"rho_{ob.name}_c", n_, 1)), "v": g(eng.sym_type.sym(f"v_{ob.name}_c", n_, 1))}
+            for o_, ob in b.origins.items():
+                if case["net"]["origins"][o_]["kind"] != "ideal":
+                    ic[ob] = {"w": g(eng.sym_type.sym(f"w_{ob.name}_c", 1, 1))}
+        lib(b.net.step, init_conditions=ic, engine=eng, **opt_kwargs(case), **kw)
         pd = {name: s for name, s, _ in decl}
         other = {k: v for k, v in kw.items() if k not in pd}
         F = lib(eng.to_function, b.net, compact=compact, more_out=more_out, parameters=pd or None, **other)
@@ -469,7 +482,9 @@ def run_fn(case, spec, x, u, d, rng):
         rec["name_in"], rec["name_out"] = list(F.name_in()), list(F.name_out())
         real_in = list(rec["name_in"])
         ren = case.get("names") or {}
-        if ren:  # the harness renamed the elements: report names with the abstract ids put back
+        if case.get("names_mode"):
+            rec["check_names"] = False    # adversarial / equal labels: names cannot be mapped back, positions decide
+        elif ren:  # the harness renamed the elements: report names with the abstract ids put back
             def back(n):
                 plus = n.endswith("+")
                 core = n[:-1] if plus else n
@@ -490,11 +505,12 @@ def run_fn(case, spec, x, u, d, rng):
 
         argsets = []
         byname = b.byname(x, u, d)
-        if compact <= 0 and all(n in byname and len(byname[n]) == rec["size_in"][i]
-                                for i, n in enumerate(real_in[:nmain])):
+        if compact <= 0 and not case.get("names_mode") and rec["pre"] == "none" and all(n in byname and len(byname[n]) == rec["size_in"][i]
+                                                               for i, n in enumerate(real_in[:nmain])):
             argsets.append((True, [list(map(float, byname[n])) for n in real_in[:nmain]] + (pvals(1.0) if decl else [])))
         for c in range(int(spec.get("generic_calls", 1))):
-            main = [[rng.uniform(3.0, 90.0) for _ in range(rec["size_in"][i])] for i in range(nmain)]
+            lo = -40.0 if rec["pre"] != "none" else 3.0    # expressions supplied by the caller are exercised on both signs
+            main = [[rng.uniform(lo, 90.0) for _ in range(rec["size_in"][i])] for i in range(nmain)]
             argsets.append((False, main + (pvals(1.0 if c == 0 else 1.0 + 0.03 * c) if decl else [])))
         for bn, args in argsets:
             outs = lib(F, *[cs.DM(a) if len(a) else cs.DM(0, 1) for a in args])
@@ -650,7 +666,7 @@ def run_trajectory(case: dict) -> list[dict]:
             #         admissible states): beyond this point the comparison would only measure floating-point blow-up
         outs = lib(F, *[cs.DM(a) if len(a) else cs.DM(0, 1) for a in args])
         outs = [np.asarray(o, float).reshape(-1) for o in (outs if isinstance(outs, (list, tuple)) else [outs])]
-        fn = {"sym": sym, "compact": compact, "more_out": True, "params": [], "ok": True, "err": "", "free": len(F.get_free()),
+        fn = {"sym": sym, "compact": compact, "more_out": True, "params": [], "ok": True, "err": "", "free": len(F.get_free()), "check_names": True, "pre": "none",
               "name_in": names_in, "name_out": names_out, "size_in": size_in, "size_out": size_out,
               "calls": [{"byname": False, "args": [[fr(z) for z in a] for a in args], "outs": [[fr(z) for z in o] for o in outs]}]}
         rec = dict(base, id=f"{case['id']}-t{k}", src="trajectory")
